@@ -13,10 +13,14 @@ pub fn tapped<T>(f: impl FnOnce() -> T) -> (T, Vec<Event>) {
     }
 }
 
-/// Outputs of all `challenge_bytes` calls, in order.
+/// Outputs of the PROTOCOL's `challenge_bytes` calls (labels `y`, `z`, `e`), in order. Challenges that a verifier draws from
+/// transcripts of its own (for its batch weights, say) carry other labels and are not the protocol's.
 pub fn challenges(ev: &[Event]) -> Vec<Vec<u8>> {
     ev.iter()
-        .filter_map(|e| if let Event::Challenge { out, .. } = e { Some(out.clone()) } else { None })
+        .filter_map(|e| match e {
+            Event::Challenge { label, out } if matches!(label.as_slice(), b"y" | b"z" | b"e") => Some(out.clone()),
+            _ => None,
+        })
         .collect()
 }
 
